@@ -65,6 +65,7 @@ REUSE = {"N2": "N5", "N5": "N7", "N7": "N2", "N10": "N5"}
 
 def space(tier, seed):
     items = list(A.scenarios(tier, NETS, unint_values=(False,)))
+    extra = list(A.inc_scenarios(tier))
     seen = set()
     for scn in list(items):
         key = (scn["net"], repr(scn["sessions"]))
@@ -74,7 +75,7 @@ def space(tier, seed):
             if len(scn["sessions"]) == 2 or tier == "thorough":
                 items.append({"net": scn["net"], "sessions": scn["sessions"], "sched": {"kind": "unc"}, "period": 5, "after": REUSE[scn["net"]]})
                 items.append({"net": scn["net"], "sessions": scn["sessions"], "sched": {"kind": "greedy", "sort": "llf", "est": True, "unint": False, "inc": 1}, "period": 5, "after": REUSE[scn["net"]]})
-    return items
+    return items + extra
 
 
 # ---------------------------------------------------------------------------
